@@ -168,6 +168,13 @@ def memento_case(spec):
     invs = [fx.g.fn_reference().with_args(i % 2, q=allv["dt-utc"]) for i in range(ninv)]  # ninv == 3: the third repeats the first
     if ninv == 2:
         invs[1] = fx.g.partial(fx.f1).fn_reference().with_args(q=[allv["date"], {"z": allv["nan"]}] if spec[1] and "nan" in spec[1] else [allv["date"]])
+    if ninv == 4:
+        # invocations of a version of g that no longer exists (decodes to an unbound external reference): positional
+        # and keyword arguments - the parameter names travel in the document
+        from twosigma.memento.reference import FunctionReference
+
+        gone = FunctionReference(fx.g, cluster_name="vfc", version="gone-version")
+        invs = [gone.with_args(1, 2, k=allv["dt-utc"]), gone.with_args(p=3), fx.g.fn_reference().with_args(0)]
     ress = [ResourceHandle("file", "file:///tmp/é%d" % i, "v%d" % i) for i in range(nres)]
     times = {"utc": datetime.datetime(2021, 3, 4, 5, 6, 7, 890, tzinfo=datetime.timezone.utc),
              "+0530": datetime.datetime(2021, 3, 4, 5, 6, 7, tzinfo=values.P0530),
@@ -243,11 +250,11 @@ def specs(tier):
 
     rts = [r.name for r in ResultType if r.name != "memento_function"]
     for (fp, ninv, nres, ck, rt, runtime, tk, runner, cid) in itertools.product(
-            [("f2", None), ("f2", "pos"), ("fk", "kw")], (0, 1, 2, 3), (0, 2), ("none", "plain", "hash-in-key", "empty-version"),
+            [("f2", None), ("f2", "pos"), ("fk", "kw")], (0, 1, 2, 3, 4), (0, 2), ("none", "plain", "hash-in-key", "empty-version"),
             rts if tier == "thorough" else ("null", "exception", "partition"), (0, 1e-6, 90061.5), ("utc", "+0530", "naive"),
             ({"type": "local"}, {}), ("cid_1", "çid-é")):
         if tier != "thorough" and (ninv, nres, runtime, tk, cid) not in {(0, 0, 0, "utc", "cid_1"), (1, 2, 1e-6, "+0530", "çid-é"), (2, 2, 90061.5, "naive", "cid_1"),
-                                                                        (2, 0, 0, "+0530", "cid_1"), (1, 0, 90061.5, "utc", "çid-é"), (3, 0, 1e-6, "utc", "cid_1"), (3, 2, 0, "naive", "çid-é")}:
+                                                                        (2, 0, 0, "+0530", "cid_1"), (1, 0, 90061.5, "utc", "çid-é"), (3, 0, 1e-6, "utc", "cid_1"), (3, 2, 0, "naive", "çid-é"), (4, 0, 0, "utc", "cid_1"), (4, 2, 1e-6, "+0530", "çid-é")}:
             continue
         args = ("1",) if fp == ("f2", "pos") else ("1", "'a'") if fp[0] == "f2" else ("1",)
         out.append((fp, args, (), (), ninv, nres, ck, rt, runtime, tk, runner, cid))
@@ -343,7 +350,7 @@ def runner_documents(_):
 def run(ctx):
     ctx.rule = ("every value of the argument alphabet (depth %d) as positional / keyword / context argument; function references "
                 "plain, with positional and keyword partials (incl. non-ASCII, aware datetime, nested function reference); x "
-                "invocation lists 0..3 (incl. a repeated invocation), resource lists 0/2, content keys none / plain / containing '#' / empty version, result types, "
+                "invocation lists 0..4 (incl. a repeated invocation and invocations of a version that no longer exists), resource lists 0/2, content keys none / plain / containing '#' / empty version, result types, "
                 "runtimes 0 / 1e-6 / 90061.5, times UTC / +05:30 / naive, runner dicts, correlation ids; oracle: strict JSON, pinned "
                 "wire structure, field-wise round trip, recomputed argument hash. distinct = distinct emitted documents."
                 % (2 if ctx.tier == "thorough" else 1))
